@@ -8,4 +8,5 @@ INVARIANT InvKnownBadTight
 INVARIANT InvAcceptSpec
 INVARIANT InvCandidates
 INVARIANT InvRepFree
+INVARIANT InvKnownRepTight
 CHECK_DEADLOCK FALSE
